@@ -147,11 +147,12 @@ theorem hasNilMember_map_some (l : List DG) : hasNilMember (l.map some) = false 
   | nil => rfl
   | cons d l ih => simp [hasNilMember, ih]
 
-theorem filterMap_map_some (l : List DG) :
-    List.filterMap (fun m : Option DG => m.map (·.v.toGeom)) (l.map some) = l.map (·.v.toGeom) := by
+/-- `Geometry()` over members none of which is a nil pointer: the members' values, no panic -/
+theorem membersGeometry_map_some (l : List DG) :
+    membersGeometry (l.map some) = .ok (l.map (·.v.toGeom)) := by
   induction l with
   | nil => rfl
-  | cons d l ih => simp [ih]
+  | cons d l ih => simp [membersGeometry, memberGeometry, ih]
 
 /-- decoding `{"type":"GeometryCollection","geometries":L}` when every element decodes -/
 theorem decode_collObj (c : Codec) (L : List Json) (ds : List DG)
@@ -160,7 +161,7 @@ theorem decode_collObj (c : Codec) (L : List Json) (ds : List DG)
       .ok ⟨.val (.collection (ds.map (·.v.toGeom))), false⟩ := by
   simp (config := { decide := true }) only [decodeGeometry, decodeGMembers, gStep, gTypeField, gGeomsField,
     geomsOf, fk_type, fk_geometries, h, finishGeometry, if_true, if_false, hasNilMember_map_some,
-    filterMap_map_some]
+    membersGeometry_map_some]
 
 theorem okGs_iff (gs : List G) :
     okGs gs = true ↔ ∀ g ∈ gs, isEmptyColl g = false ∧ okG g = true := by
@@ -696,12 +697,13 @@ theorem decode_tailPart (c : Codec) (v : V) (props : Option Members) (st : FSt)
   subst hg hpr hs ht
   rcases decode_geomMember c v hok hb with ⟨hn, hcan⟩ | ⟨hn, hdec⟩
   · simp [decodeFMembers, hn, fStep_geometry_null, fStep_propsDoc c props _ hp, featureFinish, hcan, Res.bind]
-  · simp [decodeFMembers, fStep_geometry c _ _ _ hn hdec, fStep_propsDoc c props _ hp, featureFinish, Res.bind]
+  · simp [decodeFMembers, fStep_geometry c _ _ _ hn hdec, fStep_propsDoc c props _ hp, featureFinish,
+      derefGeometry, Res.bind]
 
 theorem featureOfDoc_obj (c : Codec) (ms : Members) :
     featureOfDoc c false (.obj ms) = (decodeFMembers c ms {}).bind featureFinish := by
-  simp only [featureOfDoc, Bool.false_eq_true, if_false]
-  cases decodeFMembers c ms {} <;> rfl
+  simp only [featureOfDoc, featureDocPtr, Bool.false_eq_true, if_false]
+  cases decodeFMembers c ms {} <;> simp [Res.map, Res.bind, featureFinishPtr]
 
 theorem decodeFMembers_append' (c : Codec) (ms1 ms2 : Members) (st : FSt) :
     decodeFMembers c (ms1 ++ ms2) st = (decodeFMembers c ms1 st).bind (decodeFMembers c ms2) := by
@@ -718,7 +720,7 @@ theorem feature_roundtrip' (c : Codec) (f : Feature) (hok : okFeature f = true)
     cases id with
     | none => rfl
     | some j => cases j <;> simp [okId] at hid <;> simp [valOf]
-  simp only [featureDoc, List.append_assoc, featureOfDoc_obj]
+  simp only [featureDoc, featureDocG, List.append_assoc, featureOfDoc_obj]
   rw [decodeFMembers_append', decode_idPart c id {} hid rfl]
   simp only [Res.bind, List.cons_append, List.nil_append, decodeFMembers, fStep_type]
   rw [decodeFMembers_append', decode_bboxPart c bbox _ hbb rfl]
@@ -753,6 +755,6 @@ theorem feature_remarshal' (c : Codec) (f : Feature) (hok : okFeature f = true) 
       | cons p ps =>
         have h1 : okMembers (p :: ps) = true := by simpa using hp
         simp [propsDoc, canonProps, normVal_ok _ h1]
-  simp only [featureDoc, canonF, hidv, hbx, hpr, geomMember_canonV c geom (noNilRing_ne _ hr)]
+  simp only [featureDoc, featureDocG, canonF, hidv, hbx, hpr, geomMember_canonV c geom (noNilRing_ne _ hr)]
 
 end Orb.GeoJSON
